@@ -101,7 +101,7 @@ func workerCmd(args []string, engines map[string]Engine) int {
 	sum := Summary{Type: "summary", Faults: map[string]int{}, Probes: map[string]int{}}
 	seen := map[uint64]bool{}
 	for k := uint64(0); k < *count; k++ {
-		if *deadline != 0 && k%8 == 0 && time.Now().Unix() >= *deadline {
+		if *deadline != 0 && time.Now().Unix() >= *deadline {
 			sum.TimedOut = true
 			break
 		}
@@ -159,6 +159,12 @@ type ReplayFile struct {
 	Log           []string    `json:"log,omitempty"`
 	Violation     *Violation  `json:"violation,omitempty"`
 	Repo          any         `json:"repo,omitempty"`
+	// Prior lists runs (by index; seeds derive from BaseSeed) that the same
+	// worker process executed before the failing run and that are needed to
+	// reproduce it: the violation depends on process-level state left behind
+	// by earlier runs (itself a sign of hidden state in the code under test).
+	Prior    []uint64 `json:"prior_runs,omitempty"`
+	BaseSeed uint64   `json:"base_seed,omitempty"`
 	Minimised     bool        `json:"minimised"`
 	ShrinkTries   int         `json:"shrink_tries,omitempty"`
 	Extra         interface{} `json:"extra,omitempty"`
@@ -207,6 +213,7 @@ func exec1Cmd(args []string, engines map[string]Engine) int {
 	if rf.Tape == nil {
 		tape = NewTape(rf.Seed) // recorded by seed only (e.g. the worker process died)
 	}
+	runPriors(e, rf, rf.Prior)
 	o := RunOnce(e, tape, rf.Index, true)
 	b, _ := json.MarshalIndent(o, "", " ")
 	os.Stdout.Write(b)
@@ -226,6 +233,12 @@ func exec1Cmd(args []string, engines map[string]Engine) int {
 	return 0
 }
 
+func runPriors(e Engine, rf *ReplayFile, prior []uint64) {
+	for _, idx := range prior {
+		RunOnce(e, NewTape(Mix(rf.BaseSeed, e.Name(), idx)), idx, false)
+	}
+}
+
 // shrink: minimise the tape of a replay file in-process; rewrites the file.
 func shrinkCmd(args []string, engines map[string]Engine) int {
 	fs := flag.NewFlagSet("shrink", flag.ContinueOnError)
@@ -242,6 +255,13 @@ func shrinkCmd(args []string, engines map[string]Engine) int {
 	e := engines[rf.Engine]
 	if e == nil {
 		return 2
+	}
+	if len(rf.Prior) > 0 {
+		// process-level state is involved: an in-process shrink loop would
+		// pollute itself. The driver minimises the prior list with fresh
+		// processes instead; the tape is kept as recorded.
+		fmt.Fprintln(os.Stderr, "shrink: replay depends on prior runs; tape left as recorded")
+		return 0
 	}
 	still := func(t []uint32) bool {
 		o := RunOnce(e, ReplayTape(rf.Seed, t), rf.Index, false)
